@@ -12,7 +12,7 @@ from vlib.runner import Failure
 ID = "C05"
 LEVEL = "exploration"
 RULE = ("case = (packet sequence with sizes from named buckets around every boundary in the code: 0, 1, 2999/3000/3001, "
-        "63993..63996, 64000+-1, 128000+-1, up to 600000; compressible or incompressible content; compression on either, both "
+        "63993..63996, 64000+-1, 128000+-1, up to 600000, and a few packets around and beyond one mebibyte (2^20-1 … 2^22+1); compressible or incompressible content; compression on either, both "
         "or neither end; stream kind: the real SocketStream over a scripted fake socket, the real PipeStream over a scripted "
         "os shim, or (thorough) the real SocketStream over a kernel socketpair with tiny buffers and a 1 ms timeout; "
         "fragmentation script = how many bytes each recv/send/os.read/os.write moves; transient script = socket.timeout / "
@@ -28,6 +28,7 @@ ASSUMPTIONS = ["the fake socket behaves like a blocking socket with a timeout (s
 
 SIZES = [0, 1, 2, 5, 100, 2999, 3000, 3001, 63993, 63994, 63995, 63996, 63999, 64000, 64001, 127999, 128000, 128001]
 BIG = [200000, 300001, 600000]
+HUGE = [(1 << 20) - 1, 1 << 20, (1 << 20) + 1, (1 << 21) + 5, 2500003, (1 << 22) + 1]
 
 
 def payload(seed, size, compressible):
@@ -453,6 +454,18 @@ def cases(big=False):
     return base.flatmap(with_fault)
 
 
+def huge_cases():
+    """packets far beyond every chunk size and beyond a mebibyte (few cases, coarse fragments: they are slow)"""
+    pkt = st.tuples(st.sampled_from(HUGE), st.integers(0, 10 ** 6), st.sampled_from([True, True, False])).map(list)
+    small = st.tuples(st.sampled_from([0, 1, 5, 3001]), st.integers(0, 10 ** 6), st.booleans()).map(list)
+    frags = st.lists(st.sampled_from([63999, 64000, 64001, 1 << 30]), min_size=1, max_size=3)
+    return st.fixed_dictionaries({
+        "part": st.just("fake"), "packets": st.tuples(st.lists(small, max_size=1), pkt, st.lists(small, max_size=2)).map(
+            lambda t: t[0] + [t[1]] + t[2]),
+        "kind": st.sampled_from(["socket", "pipe"]), "scomp": st.integers(0, 1), "rcomp": st.integers(0, 1),
+        "send_frags": frags, "recv_frags": frags, "transients": st.just([]), "fault": st.none()})
+
+
 def kernel_cases():
     size = st.one_of(st.sampled_from(SIZES), st.integers(0, 9000))
     pkt = st.tuples(size, st.integers(0, 10 ** 6), st.booleans()).map(list)
@@ -462,14 +475,17 @@ def kernel_cases():
 
 def plan(tier, scale):
     if tier == "quick":
-        return [{"part": "fake", "n": int(220 * scale), "big": False} for _ in range(10)] + [{"part": "kernel", "n": int(25 * scale)}]
+        return ([{"part": "fake", "n": int(220 * scale), "big": False} for _ in range(10)] + [{"part": "kernel", "n": int(25 * scale)}]
+                + [{"part": "huge", "n": int(6 * scale)} for _ in range(3)])
     return ([{"part": "fake", "n": int(5000 * scale), "big": i % 3 == 0} for i in range(14)]
-            + [{"part": "kernel", "n": int(200 * scale)} for _ in range(2)])
+            + [{"part": "kernel", "n": int(200 * scale)} for _ in range(2)] + [{"part": "huge", "n": int(60 * scale)} for _ in range(4)])
 
 
 def run_shard(desc, seed, rec, tier):
     if desc["part"] == "fake":
         drive(rec, cases(desc.get("big", False)), lambda c: check(c, rec), desc["n"], seed)
+    elif desc["part"] == "huge":
+        drive(rec, huge_cases(), lambda c: check(c, rec), desc["n"], seed, shrink_budget=4)
     else:
         drive(rec, kernel_cases(), lambda c: check_kernel(c, rec), desc["n"], seed, shrink_budget=6)
 
